@@ -159,3 +159,48 @@ Proof.
   - unfold mh_marshal. cbn [concat]. f_equal. rewrite concat_concat_map. f_equal. apply map_ext.
     intros cm. cbn [concat]. f_equal. apply concat_mwi_chunks.
 Qed.
+
+(* ---- what writes cannot touch, whatever the script does ------------------------------------------------- *)
+Lemma dev_write_any dv off data dv' n ok :
+  dev_write dv off data = (dv', n, ok) ->
+  exists part, d_file dv' = write_at (d_file dv) off part /\ n = blen part /\ blen part <= blen data.
+Proof.
+  destruct ok; intros H.
+  - apply dev_write_ok in H. destruct H as (Hf & Hn & _). exists data. repeat split; try assumption. lia.
+  - unfold dev_write in H. destruct (d_faults dv) as [|[k|] rest]; inversion H; subst; cbn [d_file].
+    exists (take k data). repeat split. rewrite blen_take. lia.
+Qed.
+
+(* calls at or beyond the end of [a] keep [a] *)
+Lemma write_chunks_keeps_prefix a : forall chunks dv abs dv' abs' ok b,
+  d_file dv = a ++ b -> blen a <= abs ->
+  write_chunks dv abs chunks = (dv', abs', ok) -> exists b', d_file dv' = a ++ b'.
+Proof.
+  induction chunks as [|c t IH]; intros dv abs dv' abs' ok b Hf Ha H; cbn [write_chunks] in H.
+  - inversion H; subst. exists b. exact Hf.
+  - destruct (dev_write dv abs c) as [[dv1 n] ok1] eqn:E.
+    destruct (dev_write_any _ _ _ _ _ _ E) as (part & Hf1 & Hn & _).
+    rewrite Hf in Hf1. destruct (write_at_keeps_prefix a b abs part Ha) as (b1 & Hb1). rewrite Hb1 in Hf1.
+    destruct ok1.
+    + apply (IH dv1 (abs + n) dv' abs' ok b1 Hf1); [lia|exact H].
+    + inversion H; subst. exists b1. exact Hf1.
+Qed.
+
+(* calls that stay inside [pre] keep what follows it, and its length *)
+Lemma write_chunks_inside_prefix rest : forall chunks dv abs dv' abs' ok pre,
+  d_file dv = pre ++ rest -> abs + blen (concat chunks) <= blen pre ->
+  write_chunks dv abs chunks = (dv', abs', ok) ->
+  exists pre', d_file dv' = pre' ++ rest /\ blen pre' = blen pre.
+Proof.
+  induction chunks as [|c t IH]; intros dv abs dv' abs' ok pre Hf Ha H; cbn [write_chunks] in H.
+  - inversion H; subst. exists pre. split; [exact Hf|reflexivity].
+  - cbn [concat] in Ha. rewrite blen_app in Ha.
+    destruct (dev_write dv abs c) as [[dv1 n] ok1] eqn:E.
+    destruct (dev_write_any _ _ _ _ _ _ E) as (part & Hf1 & Hn & Hle).
+    rewrite Hf in Hf1.
+    destruct (write_at_inside_prefix pre rest abs part ltac:(lia)) as (pre1 & Hp1 & Hl1). rewrite Hp1 in Hf1.
+    destruct ok1.
+    + destruct (IH dv1 (abs + n) dv' abs' ok pre1 Hf1 ltac:(lia) H) as (pre2 & Hp2 & Hl2).
+      exists pre2. split; [exact Hp2|lia].
+    + inversion H; subst. exists pre1. split; [exact Hf1|exact Hl1].
+Qed.
